@@ -137,12 +137,14 @@ CHECKS = {
         note='Downstream is an in-memory scripted SMTP/LMTP peer, real child processes for the pipe relays, a loopback HTTP peer for HttpRelay and a stub resolver for MxSmtpRelay; STARTTLS/AUTH stages of the relay client are not scripted. ' + TB),
     'C14': dict(
         level='model_checking',
-        text='Server side: sessions stalled or trickled at every stage under virtual time, the deadline computed from the statement '
-             '(last completed command + command timeout; 354 + data timeout), validated by TLC (closed by the deadline, last '
-             'words 421). Relay side: the downstream goes silent at connect and at every protocol stage, PIPELINING on/off, SMTP '
+        text='Server side: ServerTimeouts.tla models which timer is armed when (command wait, AUTH exchange, DATA phase) against a peer that completes lines, '
+             'trickles bytes or stays silent at any instant; TLC checks the statement\'s bound over every arrival pattern of a small window and finds each of '
+             'three deviations (data timer per read, no timer with bytes buffered, AUTH exchange unscoped). Real sessions stalled or trickled at every stage under '
+             'virtual time are validated by TLC against the observer (closed by the deadline, last words 421) and, event by event, as behaviours of '
+             'ServerTimeouts itself (Trace_ServerTimeoutsD: the session must be closed at exactly the instant the model\'s armed timer fires). Relay side: the downstream goes silent at connect and at every protocol stage, PIPELINING on/off, SMTP '
              'and LMTP, plus a pipe child outliving its timeout; TLC requires the attempt to end by the step timeout with a '
              'transient result.',
-        design='5/C14', technique='virtual-time stall enumeration on real server and relay, TLC trace validation against TLA+ observers',
+        design='5/C14', technique='TLA+ ServerTimeouts model (TLC exhaustive, deviation switches) + virtual-time stall enumeration on real server and relay, TLC trace validation against TLA+ observers and against the design model',
         note='Every gevent Timeout is virtualised (harness/vt.py); the HTTP peer that never answers and the pipe children run in real time. TLS: stalled handshakes, completed handshakes followed by silence (server sessions run through SmtpEdge.handle(), teardown included) and a TLS downstream that never answers the closing handshake are driven over real TLS. ' + TB),
     'C19': dict(
         level='model_checking',
